@@ -272,6 +272,24 @@ SPECS["C13"] = dict(
                        params={"quick": {"MAXK": 2, "RICH": 1, "FULLSEG": 0}, "thorough": {"MAXK": 3, "RICH": 0, "FULLSEG": 1}})],
 )
 
+SPECS["C15"] = dict(
+    level="model_checking",
+    engine="E3 evx",
+    state_based=False,
+    technique="exhaustive enumeration of timed arrival sequences x limiter configurations on the real limiter under a virtual clock (real gc ticker), and of admission decisions at every listener seam",
+    claim="For every limiter configuration in the alphabet (including omitted masks/burst) and every arrival sequence up to the length bound over addresses in the same/different subnets, "
+          "delays {0, 1/rate, 1 s, 61 s, 121 s} and costs {1,3,15}: the cost admitted per subnet in any window never exceeds burst + rate x window and a request within its own subnet's "
+          "budget is never refused; at the UDP/TCP/gnet/HTTP seams a refused query gets REFUSED (503) and is not forwarded.",
+    trusted="golang.org/x/time/rate is exercised as-is; decisions are compared with the property's inequalities (1e-6 slack), not with a bit-exact model.",
+    rule="see evidence rule written by the harness",
+    assumptions=["global limit off (it is shared by design)"],
+    parts=[dict(name="limiter", pkg="internal/limiter", run="TestVerifC15", go="go1.26", env=E3ENV, gomaxprocs=1, engines=E3ENGINES,
+                files={"harness/limiter/zz_verif_c15_test.go": "internal/limiter/zz_verif_c15_test.go"},
+                params={"quick": {"MAXLEN": 3}, "thorough": {"MAXLEN": 4}}, budget={"quick": 90, "thorough": 600}),
+           router_part("seams", "TestVerifC15Seams", ["zz_verif_c15_test.go", "zz_verif_c03_test.go"],
+                       params={"quick": {"DEPTH": 4}, "thorough": {"DEPTH": 6}})],
+)
+
 
 # --------------------------------------------------------------------------------------------
 # Properties not (yet) claimed. Kept current: every property without a SPECS entry must be here.
